@@ -19,7 +19,7 @@ func init() {
 			"(entry-skip-inventory) in collectAllTreeObjects, collectChangedTreeObjects and markTreeSeen every continue/early return inside the loop over tree entries is guarded by one of three recognised conditions (already in the seen set, " +
 			"submodule entry, unchanged against a parent tree: a flag set only under equality of the parent's hash for that name); directory entries recurse and other entries are recorded; (early-stop) the painted walk leaves its loop early only when " +
 			"allStale holds, and allStale returns true only after examining every queue entry and false when either paint is missing; processCommitTrees is reached only for commits without havePaint; (result-writers) only the want side appends to the result: " +
-			"seedHaves and markTreeSeen never do. Not decided: that the selected set equals git rev-list --objects for every history and clock skew; behaviour on shallow stores.",
+			"seedHaves and markTreeSeen never do; (pruning-walk-outside-diff-walk) a tree walker that returns at once for a tree whose hash is in the shared seen set is not reachable from the diff walk (processCommitTrees / collectChangedTreeObjects), which marks trees it has only partly visited. Not decided: that the selected set equals git rev-list --objects for every history and clock skew; behaviour on shallow stores.",
 		Assumptions: []string{},
 		Run:         runC37,
 	})
@@ -35,6 +35,7 @@ func runC37(c *Ctx) {
 		return
 	}
 	info := pk.TypesInfo
+	checkPruningWalkNotInDiffWalk(c, "pruning-walk-outside-diff-walk")
 	walkT := p.lookupType(rvShort, "objectWalk")
 	resultF := fieldOf(walkT, "result")
 	wantsQF := fieldOf(walkT, "wantsQueue")
